@@ -229,7 +229,7 @@ EXTRA_ENC: List[Tuple[str, Callable[[str], str]]] = [
 ]
 VAR = {v.name: v for v in VARIANTS}
 # the triples over the lookahead alphabet are for the encoders/readers with context (quick tier)
-TRIPLES_FOR = {"ts:0:1", "java", "cppw", "py:n:0:0"}
+TRIPLES_FOR = {"ts:0:1", "java", "py:n:0:0"}
 
 # needs_escaping: (name, predicate, variant whose literal it talks about, quote)
 NEEDS: List[Tuple[str, Callable[[str], bool], Callable[[str], str], str]] = [
@@ -338,7 +338,7 @@ def texts(ctx: Ctx) -> Iterator[Tuple[str, str]]:
             yield a + b, "enumerated"
     for t in itertools.product(SMALL, repeat=3):
         yield "".join(t), "enumerated3"
-    for _ in range(ctx.n(900, 60000)):
+    for _ in range(ctx.n(400, 20000)):
         yield rand_text(ctx), "random"
 
 
@@ -599,7 +599,7 @@ def run_bytes(ctx: Ctx, with_model: bool, items: Optional[List[Tuple[bytes, str]
 def run_decoders(ctx: Ctx) -> None:
     """The trusted Lean decoders against the real tool-chains / the independent spec readers on literal-like texts."""
     for reader in ["py", "pyf", "cppw", "cppn", "cppc", "cs", "java", "tsq", "tst", "go"]:
-        n = ctx.n(150, 4000) if reader in COMPILED else ctx.n(1500, 40000)
+        n = ctx.n(60, 1500) if reader in COMPILED else ctx.n(600, 10000)
         lits = [c["literal_text"] for c in corpus(ID) if c.get("reader") == reader]
         lits = [dec_text(x) for x in lits] + [rand_literal(ctx, reader) for _ in range(n)]
         vals = read_all(ctx, reader, lits)
@@ -654,7 +654,7 @@ def correspond(ctx: Ctx) -> None:
     ]
     items = list(texts(ctx))
     run_strings(ctx, True, items)
-    run_needs(ctx, True, [(s, st) for s, st in items if st != "random" or len(s) < 9])
+    run_needs(ctx, True, [(s, st) for s, st in items if st in ("corpus", "enumerated") or (st == "enumerated3" and ctx.tier != "quick") or (st == "random" and len(s) < 7)])
     run_bytes(ctx, True)
     run_decoders(ctx)
 
